@@ -16,7 +16,7 @@ PROPERTY = "C18"
 LEVEL = "exploration"
 ENGINE = "sim"
 TECHNIQUE = "runtime monitor in a deterministic world: scripted page server + sequential reference (concatenation of pages, paging-state chain) over an enumerated space of page-size sequences x access patterns"
-LEVEL_TEXT = ("Exhaustive over page-size sequences in {0..3}^(1..4) on quick ({0..3}^(1..6) on thorough) x 10 access patterns, row factory "
+LEVEL_TEXT = ("Exhaustive over page-size sequences in {0..3}^(1..4) on quick ({0..3}^(1..7) on thorough) x 10 access patterns, row factory "
               "tuple/dict/named rotating (all three for every sequence on thorough): rows seen == concatenation of pages, paging-state chain "
               "exact, no request after the final page, list materialisation == iteration, observers agree with the page model. "
               "Exhaustive within those bounds for the sequential access patterns listed; schedules (thread interleavings) are sampled.")
@@ -230,7 +230,7 @@ def run(ctx):
     ctx.assume("calling iter() again on a partially consumed ResultSet restarts the current page, and iteration mixed with fetch_next_page() skips the manually "
                "fetched page: the driver does not define these mixes, they are not generated")
     ctx.assume("one() is the first row of the *current* page (documented as a shortcut to current_rows[0]); it is not expected to look into later pages")
-    maxlen = 4 if ctx.quick else 6
+    maxlen = 4 if ctx.quick else 7
     budget = 100 if ctx.quick else 450
     factories = [('tuple', tuple_factory), ('dict', dict_factory), ('named', named_tuple_factory)]
     makers = {'tuple': lambda r, k: (r, 'p%d' % k), 'named': lambda r, k: (r, 'p%d' % k), 'dict': lambda r, k: {'id': r, 'tag': 'p%d' % k}}
